@@ -42,6 +42,12 @@ def run(rep, tier):
     rep.rule("C07.4", "include call checks (arity, template / keyword set) dominate the expansion (shared with C07)", floor=64)
     common.guarded(rep, "C07.4", c07.c07_4, rep, ix)
     common.guarded(rep, "C11.7", c11_7, rep, ix)
+    # the type checks look at the value the initialiser evaluates to, not at a converted or simplified copy of it
+    from . import c05
+    common.guarded(rep, "C05.2", c05.c05_2, rep, ix)
+    # "does not accept arguments" / "missing keyword arguments" are decided from the reported parameters of the included program
+    from . import c15
+    common.guarded(rep, "C15.1", c15.c15_1, rep, ix)
 
 
 def table_loads(fn, table=TABLE):
